@@ -20,6 +20,8 @@ CONSTANTS Skis, MaxConns, Defects, GenMode, EmitMode, SimDepth, MaxOps,
 DefectNames == {"rawSki",            \* hub_pairing.go: unregister / disconnect / cancel / detail look the connection up by the raw string
                 "staleDisconnect",   \* hub_shipconnection.go: RemoteSKIDisconnected also for a connection that is not the registered one
                 "dialAfterShutdown", \* hub.go: Shutdown sets no flag, a later mDNS report still leads to a dial
+                "cancelLeavesConnection", \* hub_pairing.go: CancelPairingWithSKI only asks the connection to abort; one that is past its hello phase
+                                     \* goes on and completes (or stays completed) although the pairing was cancelled
                 "staleStateUpdate"}  \* hub_shipconnection.go: a state reported by a connection that is not the registered one overwrites the pairing detail
 ASSUME Defects \subseteq DefectNames
 Has(d) == d \in Defects
@@ -84,7 +86,12 @@ Cancel(k, sp) ==
     /\ Can /\ Bump /\ ~shut
     /\ svc' = [svc EXCEPT ![k].trusted = FALSE, ![k].intent = FALSE, ![k].dstate = "None",
                           ![k].cnt = IF RawHit(sp) THEN -1 ELSE @]
-    /\ out' = (IF Found(k, sp) # 0 THEN <<CallOn(Found(k, sp), "Abort")>> ELSE <<>>) \o <<"note:" \o k \o ":None">>
+    \* the connection is asked to abort; unless it is (then) in an aborted / failed state it is ended like Unregister does
+    /\ out' = (IF Found(k, sp) # 0
+               THEN <<CallOn(Found(k, sp), "Abort")>>
+                    \o (IF Has("cancelLeavesConnection") \/ conns[Found(k, sp)].st \in {"AbortDone", "RemoteAbortDone", "Error"}
+                        THEN <<>> ELSE <<CallOn(Found(k, sp), "Close:safe:4500")>>)
+               ELSE <<>>) \o <<"note:" \o k \o ":None">>
     /\ UNCHANGED <<started, shut, auto, conns>>
 
 \* PairingDetailForSki and ServiceForSKI(..).Trusted(): queries
@@ -191,6 +198,8 @@ View == <<started, shut, auto, svc, conns, nops>>
 (*************************** properties on the model *****************************)
 \* C10: a dial is only attempted for a SKI the user registered (or that earned trust in a handshake) and not after shutdown
 DialsOf(o) == {k \in Skis : \E i \in 1..Len(o) : o[i] = "dial:" \o k}
+\* C01 at the hub: a service is held trusted only on the user's word (Register, or trust earned in a handshake since)
+Inv_C01_trust == \A k \in Skis : svc[k].trusted => svc[k].intent
 Inv_C10_dial == \A k \in DialsOf(out) : svc[k].intent
 Inv_C10_shutdown == shut => DialsOf(out) = {} \/ lastAct.a = "Shutdown"
 \* C11: the end of a connection object never removes the registry entry of another (newer) connection
